@@ -1228,9 +1228,12 @@ pub trait ObservableExt<Item, Err>: Sized {
 
   #[inline]
   fn delay_at<SD>(self, at: Instant, scheduler: SD) -> DelayOp<Self, SD> {
+    // the delay is the time remaining until `at` (zero if it has passed), not
+    // the time elapsed since `at`
+    let now = Instant::now();
     DelayOp {
       source: self,
-      delay: at.elapsed(),
+      delay: at.saturating_duration_since(now),
       scheduler,
     }
   }
@@ -1242,9 +1245,10 @@ pub trait ObservableExt<Item, Err>: Sized {
     at: Instant,
     scheduler: SD,
   ) -> DelayOpThreads<Self, SD> {
+    let now = Instant::now();
     DelayOpThreads {
       source: self,
-      delay: at.elapsed(),
+      delay: at.saturating_duration_since(now),
       scheduler,
     }
   }
@@ -1267,9 +1271,10 @@ pub trait ObservableExt<Item, Err>: Sized {
     at: Instant,
     scheduler: SD,
   ) -> DelaySubscriptionOp<Self, SD> {
+    let now = Instant::now();
     DelaySubscriptionOp {
       source: self,
-      delay: at.elapsed(),
+      delay: at.saturating_duration_since(now),
       scheduler,
     }
   }
